@@ -1,7 +1,7 @@
 """C49 thread pools run every task exactly once within their worker limit.
 
 (a) E1 exhaustive exploration of the REAL `twisted._threads.Team` with `createMemoryWorker()`
-    coordinator and workers.  Actions: do(task ok|raise), grow(1|2), shrink(1|None), set limit 0..2,
+    coordinator and workers.  Actions: do(task; the 2nd one raises), grow(1|2), shrink(1|None), set limit 0..2,
     quit, one post-quit probe (do/grow/shrink/quit must all raise AlreadyQuit), perform(coordinator),
     perform(worker k).  Workers are harness wrappers around real MemoryWorkers with a fixed hash so
     that `Team._idle.pop()` is a deterministic function of the history.  `createWorker` mirrors
@@ -34,10 +34,10 @@ import threading
 import time
 
 LEVEL = "exploration"
-ENGINE = "E1-explore+E5-threads"
+ENGINE = "E1-explore (breadth-first variant, local)+E5-threads"
 TECHNIQUE = "runtime monitoring: exhaustive schedule exploration of the real Team with invariant/quiescence monitors + exactly-once/concurrency-bound monitors on the real ThreadPool under injected yields"
-RULE = ("(a) every history of Team actions up to depth 9 (quick) / 11 (thorough) with <= 3 tasks and limit <= 2, pruned by a hash of "
-        "the real team/worker/queue state; a case is distinct by its action history, non-trivial = at least one task submitted; "
+RULE = ("(a) every history of Team actions up to depth 8 (quick) / 11 (thorough) with <= 3 tasks (the 2nd raises), limit 0..2, <= 2 grow, "
+        "<= 2 shrink and <= 2 limit changes, breadth-first with pruning by a hash of the real team/worker/queue state; a case is distinct by its action history, non-trivial = at least one task submitted; "
         "(b) one case = one generated ThreadPool scenario (min, max, pre-start backlog, submitters, task kinds, adjustPoolsize plan, "
         "gate phase), distinct by that configuration")
 ASSUMPTIONS = [
@@ -55,6 +55,7 @@ READY = True
 
 MAX_TASKS = 3
 MAX_LIMIT = 2
+BUDGET = 2  # grow / shrink / limit-change actions allowed per history (each)
 
 
 # ------------------------------------------------------------------------------------------- (a)
@@ -67,7 +68,7 @@ def _fp(obj, depth=0):
     if isinstance(obj, Task):
         return ("T", obj.i)
     if isinstance(obj, W):
-        return ("W", obj.k)
+        return ("W", obj.slot)
     if obj is None or isinstance(obj, (int, str, bool)):
         return obj
     code = getattr(obj, "__code__", None)
@@ -106,16 +107,19 @@ class Task:
 class W:
     """Real MemoryWorker behind a wrapper with a deterministic hash (IWorker by duck typing)."""
 
-    def __init__(self, world, k):
+    def __init__(self, world, k, slot):
         from twisted._threads import createMemoryWorker
 
-        self.world, self.k = world, k
+        # k = creation index (witness only); slot = smallest number not used by a live worker: the
+        # hash, so that Team._idle.pop() and the abstract state do not depend on how many workers
+        # were created and quit before (a quit MemoryWorker is inert: its queue is [NoMoreWork])
+        self.world, self.k, self.slot = world, k, slot
         self.inner, self._perform = createMemoryWorker()
         self.quit_calls = 0
         self.queued = 0  # tasks handed over and not yet finished
 
     def __hash__(self):
-        return self.k
+        return self.slot
 
     def __eq__(self, other):
         return self is other
@@ -165,13 +169,14 @@ class TeamWorld:
         self.workers = []
         self.tasks = []
         self.limit = 1
+        self.budget = {"grow": BUDGET, "shrink": BUDGET, "limit": BUDGET}
         self.quit_called = False
         self.probed = False
         self.logged = 0
         self.running_on = None
         self.dead = False
         self.team = Team(self.coord, self.create_worker, self.log_exception)
-        self._cache()
+        self._actions = self._state = None
 
     # ---- monitor plumbing
     def bad(self, key, what, **extra):
@@ -196,7 +201,8 @@ class TeamWorld:
         if self.live() >= self.limit:
             self.bad("worker-created-at-limit", "a worker was created while the number of live workers had reached the limit "
                      "(Team.statistics() under-reports its workers)", live=self.live())
-        x = W(self, len(self.workers))
+        used = {x.slot for x in self.workers if not x.quit_calls}
+        x = W(self, len(self.workers), next(i for i in range(len(used) + 1) if i not in used))
         self.workers.append(x)
         return x
 
@@ -209,9 +215,13 @@ class TeamWorld:
 
     # ---- E1 interface
     def actions(self):
+        if self._actions is None:
+            self._cache()
         return self._actions
 
     def state(self):
+        if self._state is None:
+            self._cache()
         return self._state
 
     def _cache(self):
@@ -221,36 +231,41 @@ class TeamWorld:
         acts = []
         if not self.quit_called:
             if len(self.tasks) < MAX_TASKS:
-                acts += [("do", "ok"), ("do", "raise")]
-            acts += [("grow", 1), ("grow", 2), ("shrink", 1), ("shrink", None)]
+                acts.append(("do", "raise" if len(self.tasks) % 2 else "ok"))  # task 1 raises, 0 and 2 succeed
+            if self.budget["grow"]:
+                acts += [("grow", 1), ("grow", 2)]
+            if self.budget["shrink"]:
+                acts += [("shrink", 1), ("shrink", None)]
             acts.append(("quit",))
         elif not self.probed:
             acts.append(("probe",))
-        acts += [("limit", v) for v in range(MAX_LIMIT + 1) if v != self.limit]
+        if self.budget["limit"]:
+            acts += [("limit", v) for v in range(MAX_LIMIT + 1) if v != self.limit]
         if self.coord_performable():
             acts.append(("pc",))
-        acts += [("pw", x.k) for x in self.workers if x.performable()]
+        acts += [("pw", x.slot) for x in self.workers if not x.quit_calls and x.performable()]
         self._actions = acts
         t = self.team
         self._state = (
-            self.limit, self.quit_called, self.probed, self.logged,
+            self.limit, self.quit_called, self.probed, self.logged, tuple(sorted(self.budget.items())),
             tuple((x.raises, x.runs, x.accepted) for x in self.tasks),
-            tuple(sorted(x.k for x in t._idle)), t._busyCount, tuple(_fp(p) for p in t._pending), t._toShrink,
+            tuple(sorted(x.slot for x in t._idle)), t._busyCount, tuple(_fp(p) for p in t._pending), t._toShrink,
             t._shouldQuitCoordinator, t._quit.isSet, self.coord._quit.isSet,
             tuple("NoMore" if _is_nomore(p) else _fp(p) for p in self.coord._pending),
-            tuple((x.k, x.quit_calls, x.queued, tuple("NoMore" if _is_nomore(p) else _fp(p) for p in x.inner._pending)) for x in self.workers),
+            tuple(sorted((x.slot, x.quit_calls, x.queued, tuple("NoMore" if _is_nomore(p) else _fp(p) for p in x.inner._pending))
+                         for x in self.workers if not (x.quit_calls == 1 and x.queued == 0 and len(x.inner._pending) == 1))),
         )
 
     def apply(self, a):
         self.history.append(a)
         if self.dead:
             return
+        self._actions = self._state = None  # recomputed lazily (before finish(), which is destructive)
         try:
             self._apply(a)
             self.invariants()
         except Stop:
             pass
-        self._cache()
 
     def _guard(self, fn, what):
         """Run a Team entry point / perform(); anything it raises is a defect (tasks' own errors are
@@ -272,10 +287,13 @@ class TeamWorld:
             self._guard(lambda: self.team.do(t), "Team.do")
             t.accepted = True
         elif kind == "grow":
+            self.budget["grow"] -= 1
             self._guard(lambda: self.team.grow(a[1]), "Team.grow")
         elif kind == "shrink":
+            self.budget["shrink"] -= 1
             self._guard(lambda: self.team.shrink(a[1]), "Team.shrink")
         elif kind == "limit":
+            self.budget["limit"] -= 1
             self.limit = a[1]
         elif kind == "quit":
             self.quit_called = True
@@ -295,7 +313,8 @@ class TeamWorld:
         elif kind == "pc":
             self._guard(self._coord_perform, "coordinator perform()")
         elif kind == "pw":
-            self._guard(self.workers[a[1]].perform, "worker perform()")
+            x = next(x for x in self.workers if not x.quit_calls and x.slot == a[1])
+            self._guard(x.perform, "worker perform()")
 
     def invariants(self):
         st = self.team.statistics()
@@ -357,19 +376,56 @@ class TeamWorld:
 
 
 def explore_team(ctx):
-    from vf.engines import explore
+    """E1-style stateless exploration, breadth-first: a state is expanded the first time it is
+    reached, i.e. at its smallest depth, so one global `seen` set prunes soundly for the depth bound
+    (explore.dfs prunes poorly here: it meets most states first near the depth limit).  Histories are
+    partitioned over shards by their first two actions; every unique state is extended by the
+    canonical drain and judged at quiescence (`finish`)."""
+    depth = ctx.size(8, 11) if ctx.size(100, 100) == 100 else (6 if ctx.quick else 8)
 
-    depth = 9 if ctx.quick else 11
+    def build(history):
+        w = TeamWorld(ctx)
+        for a in history:
+            w.apply(a)
+        return w
 
-    def on_node(w, history):
-        ctx.evaluated()
-        if any(a[0] == "do" for a in history):
-            ctx.distinct(("team", tuple(history)))
-        if len(history) == depth and ctx.counters.get("explore_samples", 0) < 2:
-            ctx.count("explore_samples")
-            ctx.sample({"team_history": history, "tasks": [[t.i, t.raises, t.runs] for t in w.tasks], "workers": len(w.workers)}, limit=2)
-
-    explore.dfs(ctx, lambda: TeamWorld(ctx), depth, shard_depth=2, on_node=on_node)
+    root = build([])
+    seen = {hash(root.state())}  # 64-bit tuple hashes (PYTHONHASHSEED=0): memory; a collision could only prune, never alarm
+    frontier = [([], list(root.actions()))]
+    root.finish()
+    states, transitions, pruned = 1, 0, 0
+    for d in range(depth):
+        nxt = []
+        for hist, acts in frontier:
+            for a in acts:
+                h2 = hist + [a]
+                if len(h2) == 2 and not ctx.owns(repr(h2)):
+                    continue
+                transitions += 1
+                w = build(h2)
+                st = hash(w.state())
+                if st in seen:
+                    pruned += 1
+                    continue
+                seen.add(st)
+                nxt.append((h2, list(w.actions())))
+                states += 1
+                ctx.evaluated()
+                if any(x[0] == "do" for x in h2):
+                    ctx.distinct(("team", tuple(h2)))
+                if d == depth - 1 and ctx.counters.get("explore_samples", 0) < 2:
+                    ctx.count("explore_samples")
+                    ctx.sample({"team_history": h2, "tasks": [[t.i, t.raises, t.runs] for t in w.tasks], "workers": len(w.workers)}, limit=2)
+                w.finish()  # canonical drain + quiescence oracle; destructive, the world is dropped
+        frontier = nxt
+        ctx.maxi("explore_depth", d + 1)
+        if not frontier:
+            ctx.count("explore_closed_shards")  # this shard's part of the space is closed under all actions
+            break
+    ctx.count("explore_states", states)
+    ctx.count("explore_transitions", transitions)
+    ctx.count("explore_pruned", pruned)
+    ctx.exhaustive = True
 
 
 def replay_team(ctx, history):
@@ -536,8 +592,10 @@ def run_pool_case(ctx, case, inj_codes):
     ctx.count("pool_onresult", sum(len(v) for v in results.values()))
     if alive:
         ctx.violation("stop-returned-with-live-threads", "ThreadPool.stop() returned while pool threads were still alive", dict(wit, alive=alive[:8]))
-    if late or ("late", 0) in runs or ("late", 0) in results:
-        ctx.violation("task-ran-after-stop", "a task submitted after stop() returned was run", wit)
+    if ("late", 0) in runs or ("late", 0) in results:
+        ctx.violation("task-submitted-after-stop-ran", "a task submitted after stop() returned was run", wit)
+    elif late:
+        ctx.violation("task-body-entered-after-stop-returned", "a task body started running after stop() had returned (stop() did not wait for its thread)", dict(wit, n=late))
     if over:
         ctx.violation("more-running-tasks-than-max", "more task bodies were running at once than the largest max the pool ever had", dict(wit, over=over[:5]))
     never = [t for t in planned if runs.get(t, 0) == 0]
@@ -579,7 +637,9 @@ def pool_codes():
 
 
 def run(ctx):
+    t0 = time.time()
     explore_team(ctx)
+    ctx.maxi("explore_wall_s", round(time.time() - t0, 1))
     codes = pool_codes()
     for i in ctx.cases(200, 5000):
         run_pool_case(ctx, i, codes)
